@@ -85,6 +85,19 @@ def shard(method, seed, tier, sweep=False):
             cases += sc
             groups.append((ref, sc, kind, n, plain))
 
+    # declared lengths of 2^32 bytes and more (size_t is 64 bits wide; the declared length is an argument of lha_decoder_new, not
+    # only a 32-bit header field): a stream that denotes far less must give the same bytes, length and CRC as under 2^31-1
+    if method != '-pm1-':
+        s_, p_, _ = streams.valid_stream(rnd, method, rnd.choice([6, 60, 400]))
+        for n_ in (1 << 32, (1 << 32) + 100, (1 << 32) + 5000, (1 << 33) + 77, 3 * (1 << 32) + 18000, 1 << 40, (1 << 32) - 1):
+            cap = len(p_) + 200000
+            ref = dech.Case(method, s_, (1 << 31) - 1, sched=[1 << 22], flags=dech.F_ONEREAD, max_total=cap, meta=('ref', 'huge-declared', n_))
+            sc = [dech.Case(method, s_, n_, sched=sd, max_total=cap, meta=('sched', 'huge-declared', n_)) for sd in ([1], [16], [777], [65536], [1 << 22])]
+            cases.append(ref)
+            cases += sc
+            groups.append((ref, sc, 'huge-declared', n_, None))
+        sh.count('huge_declared_length_groups', 7)
+
     # truncation sweep: a valid stream cut at every byte offset; the one-call reference against reads that carry on after
     # the first short read (whatever is left in the bit buffer after a failure must not be decoded by a later call)
     if sweep or tier == 'thorough':
@@ -187,7 +200,7 @@ def run(ctx):
     core.run_shards(ctx, shard, args)
     ctx.cov['rule'] = ('(method, stream, declared length, read schedule, monitor attach point) tuples over all 14 method names; streams: '
                        'valid (from the serialisers), truncated (random cut, plus a sweep over every cut of one stream per method), '
-                       'bit-flipped, random, empty; the reference is ONE maximal lha_decoder_read call, the schedules carry on until a '
+                       'bit-flipped, random, empty; declared lengths of 2^32 .. 2^40 on streams that denote far less; the reference is ONE maximal lha_decoder_read call, the schedules carry on until a '
                        'read returns 0; schedules: fixed 1/2/3/16/64/4096, maximal, '
                        'random mixes with zero-length reads, and all 2^(n-1) compositions for outputs of <= 9 (quick) / 12 (thorough) bytes; '
                        'distinct by the whole tuple; non-trivial = reference output longer than 1 byte and schedule other than a lone zero read')
